@@ -89,6 +89,8 @@ def oracle(ctx, U, idx, dist, k, lc, case, sig, rho, vals):
 
 
 def run(ctx):
+    import srcval as _srcval2
+    _srcval2.validate_umap(ctx, 200 if ctx.thorough else 40, ctx.rng, only="compute_membership_strengths")   # translated kernel vs the Python source
     import srcval as _srcval
     _srcval.validate_umap(ctx, 200 if ctx.thorough else 40, ctx.rng, only="_finite_mean")     # translated `_finite_mean` vs the Python source
     import umap.umap_ as U
